@@ -140,6 +140,9 @@ def layouts(words, sp):
             else:
                 s += ' '
         out.append('/* a' + lt + 'b' + lt + lt + 'c */ ' + s + " 'x\\" + lt + "y\\" + lt + "z' ;")
+    # a byte order mark (ES5 white space) as the very first character, then a line break
+    out.append('\ufeff' + ' '.join(toks))
+    out.append('\ufeff\n\ufeff ' + ' '.join(toks))
     return out
 
 
